@@ -196,6 +196,9 @@ fn main() {
 	let next_specs = spend_for_fork(&kit, &spendable, kit.blks[tip].height + 1);
 	let next_blk = kit.new_block(tip, 20, &next_specs).ok();
 
+	// a heavier coinbase-only block two blocks below the tip: a reorganisation that rewinds two
+	// blocks and spends nothing
+	let reorg_empty = kit.new_block(trunk[n - 2], 12, &[]).ok();
 	// a block on top of the tip that spends nothing (coinbase only)
 	let empty_blk = kit.new_block(tip, 3, &[]).ok();
 	// a sibling of the tip with more work (equal height), and a child of it
@@ -221,6 +224,9 @@ fn main() {
 	if let Some(r) = reorg_blk {
 		scenarios.push(Scenario { name: "reorg-with-spends", pre: trunk[1..=n].to_vec(), compact_pre: false, kind: "block", input: Some(r), followup: None });
 		scenarios.push(Scenario { name: "header-only-reorg", pre: trunk[1..=n].to_vec(), compact_pre: false, kind: "header", input: Some(r), followup: None });
+	}
+	if let Some(r) = reorg_empty {
+		scenarios.push(Scenario { name: "reorg-coinbase-only", pre: trunk[1..=n].to_vec(), compact_pre: false, kind: "block", input: Some(r), followup: None });
 	}
 	if let (Some(e), Some(ec)) = (eq_blk, eq_child) {
 		scenarios.push(Scenario { name: "header-reorg-equal-height", pre: trunk[1..=n].to_vec(), compact_pre: false, kind: "header", input: Some(e), followup: Some(ec) });
